@@ -646,15 +646,13 @@ impl CKKSEncoder {
         let mut res = vec![Complex::new(0.0, 0.0); coeff_count];
         for i in 0..coeff_count {
             if util::is_greater_than_or_equal_uint(&plain_copy[i*coeff_modulus_size..(i+1)*coeff_modulus_size], upper_half_threshold) {
+                // q - c as a multi-word integer first: subtracting word by word in doubles
+                // cancels catastrophically whenever a word of q is smaller than the word of c
+                let mut diff = vec![0u64; coeff_modulus_size];
+                util::sub_uint(decryption_modulus, &plain_copy[i*coeff_modulus_size..(i+1)*coeff_modulus_size], &mut diff);
                 let mut scaled_two_pow_64 = inv_scale;
                 for j in 0..coeff_modulus_size {
-                    if plain_copy[i * coeff_modulus_size + j] > decryption_modulus[j] {
-                        let diff = plain_copy[i * coeff_modulus_size + j] - decryption_modulus[j];
-                        res[i] += if diff != 0 {(diff as f64) * scaled_two_pow_64} else {0.0};
-                    } else {
-                        let diff = decryption_modulus[j] - plain_copy[i * coeff_modulus_size + j];
-                        res[i] -= if diff != 0 {(diff as f64) * scaled_two_pow_64} else {0.0};
-                    }
+                    res[i] -= if diff[j] != 0 {(diff[j] as f64) * scaled_two_pow_64} else {0.0};
                     scaled_two_pow_64 *= two_pow_64;
                 }
             } else {
@@ -723,15 +721,13 @@ impl CKKSEncoder {
         let mut res = vec![Complex::new(0.0, 0.0); coeff_count];
         for i in 0..coeff_count {
             if util::is_greater_than_or_equal_uint(&plain_copy[i*coeff_modulus_size..(i+1)*coeff_modulus_size], upper_half_threshold) {
+                // q - c as a multi-word integer first: subtracting word by word in doubles
+                // cancels catastrophically whenever a word of q is smaller than the word of c
+                let mut diff = vec![0u64; coeff_modulus_size];
+                util::sub_uint(decryption_modulus, &plain_copy[i*coeff_modulus_size..(i+1)*coeff_modulus_size], &mut diff);
                 let mut scaled_two_pow_64 = inv_scale;
                 for j in 0..coeff_modulus_size {
-                    if plain_copy[i * coeff_modulus_size + j] > decryption_modulus[j] {
-                        let diff = plain_copy[i * coeff_modulus_size + j] - decryption_modulus[j];
-                        res[i] += if diff != 0 {(diff as f64) * scaled_two_pow_64} else {0.0};
-                    } else {
-                        let diff = decryption_modulus[j] - plain_copy[i * coeff_modulus_size + j];
-                        res[i] -= if diff != 0 {(diff as f64) * scaled_two_pow_64} else {0.0};
-                    }
+                    res[i] -= if diff[j] != 0 {(diff[j] as f64) * scaled_two_pow_64} else {0.0};
                     scaled_two_pow_64 *= two_pow_64;
                 }
             } else {
